@@ -556,30 +556,30 @@ func (te *TemplateEngine) renderLoopsNested(content string, lists map[string][]i
 	// 渲染循环
 	if listData, exists := lists[listVar]; exists {
 		for i, item := range listData {
-			// 创建循环上下文变量
-			loopContent := strings.ReplaceAll(blockContent, "{{this}}", te.interfaceToString(item))
-			loopContent = strings.ReplaceAll(loopContent, "{{@index}}", strconv.Itoa(i))
-			loopContent = strings.ReplaceAll(loopContent, "{{@first}}", strconv.FormatBool(i == 0))
-			loopContent = strings.ReplaceAll(loopContent, "{{@last}}", strconv.FormatBool(i == len(listData)-1))
-
-			// 如果item是map，处理属性访问
-			if itemMap, ok := item.(map[string]interface{}); ok {
-				// 首先处理嵌套的循环（在替换变量之前）
-				// 为嵌套循环创建新的lists map，包含当前项的列表数据
-				nestedLists := make(map[string][]interface{})
+			// 首先处理嵌套的循环：嵌套循环使用当前项中的列表数据，并替换它们自己的
+			// {{this}}/{{@index}}/{{@first}}/{{@last}}；当前项不是map或没有对应列表时，
+			// 嵌套循环不输出任何内容（而不是把指令原样留在结果中）
+			itemMap, isMap := item.(map[string]interface{})
+			nestedLists := make(map[string][]interface{})
+			if isMap {
 				for key, value := range itemMap {
 					// 检查值是否是列表类型
 					if listValue, ok := value.([]interface{}); ok {
 						nestedLists[key] = listValue
 					}
 				}
+			}
+			loopContent := te.renderLoopsNested(blockContent, nestedLists, depth+1)
 
-				// 如果有嵌套列表，递归处理嵌套循环
-				if len(nestedLists) > 0 {
-					loopContent = te.renderLoopsNested(loopContent, nestedLists, depth+1)
-				}
+			// 创建循环上下文变量
+			loopContent = strings.ReplaceAll(loopContent, "{{this}}", te.interfaceToString(item))
+			loopContent = strings.ReplaceAll(loopContent, "{{@index}}", strconv.Itoa(i))
+			loopContent = strings.ReplaceAll(loopContent, "{{@first}}", strconv.FormatBool(i == 0))
+			loopContent = strings.ReplaceAll(loopContent, "{{@last}}", strconv.FormatBool(i == len(listData)-1))
 
-				// 然后替换普通变量
+			// 如果item是map，处理属性访问
+			if isMap {
+				// 替换普通变量
 				for key, value := range itemMap {
 					placeholder := fmt.Sprintf("{{%s}}", key)
 					// 只替换非列表类型的值
